@@ -62,7 +62,7 @@ def main():
         })
     man = {
         "version": 1,
-        "setup_cmd": "cd /verif/tools/factgen && CARGO_NET_OFFLINE=true cargo +nightly build --offline && cd /verif && python3 rules/factbase.py /repo >/dev/null",
+        "setup_cmd": "cd /verif/tools/factgen && CARGO_NET_OFFLINE=true cargo +nightly build --offline && cd /verif/tools/regexfacts && CARGO_NET_OFFLINE=true cargo build --offline && cd /verif && python3 rules/factbase.py /repo >/dev/null && ./check C18 --no-evidence >/dev/null; true",
         "hooks": {
             "guard": "scratchstack_verif",
             "enable": "none needed: the checks analyse /repo's unmodified sources through a rustc driver; no instrumentation is compiled in",
